@@ -2,8 +2,23 @@ from driver import Unit
 LEVEL = "other"
 HARNESS_FILES = ["verif_geom.rs"]
 P = "nested::verif_geom::"
+both = ("quick", "thorough"); th = ("thorough",)
+DEPTHS = [0, 1, 2, 3, 8, 9, 16, 17, 24, 29]
+MANIFEST = dict(
+    category="other",
+    text="Decided part: for each listed depth and EVERY cell, center_of_projected_cell(h) equals the integer geometry of the cell exactly (x = Xc/nside reduced to [0,8), y = Yc/nside in [-2,2]; power-of-two scaling is exact) -- the quantity every accessor (center, sph_coo, vertex, vertices, vertices_map, path_*, grid) starts from -- and cell numbers >= 12*4^depth are rejected by a panic. hash_with_dxdy's discretisation (shift_rotate_scale, depth0_bits arms) with proj as a contract stub is only a time-bounded refutation search in the thorough tier (CBMC did not finish in 400 s in three formulations). Round trips through unproj/hash (libm inverse pairs) and the 1e-13 rad claim are NOT decided.",
+    note="Bounded to listed depths {0,1,2,3,8,9,16,17,24,29}; relies on C04/C18 for the codec; the libm-dependent half of C03 is not decided.",
+    technique="Kani per-depth full-domain harnesses (CBMC) on the real center_of_projected_cell against the integer geometry; must-panic harnesses",
+)
+EXPLANATION = "Per listed depth complete over all cells; depth list is the bound."
+ASSUMPTIONS = ["accessors = unproj(centre +- offsets): unproj itself is C17 (wrappers only)", "hash(sph_coo(h,dx,dy)) == h and the 1e-13 rad recovery claim: NOT decided", "hash_with_dxdy discretisation: searched (thorough), not proved"]
+TRUSTED_BASE = ["Kani 0.68 / CBMC 6.11 IEEE-754", "harness/verif_spec.rs integer geometry (cell_center)"]
 def units():
     us = []
-    for n in ["geom_center_d00", "geom_center_d03", "geom_center_d29", "geom_panic_d03", "geom_hdxdy_d00", "geom_hdxdy_d03", "geom_hdxdy_d29"]:
-        us.append(Unit(n, P + n, ["x"], "x", timeout=400, mem_gb=8, kind="must_panic" if "panic" in n else "proof", allowed_fail=[r"Wrong hash value: too large"], extra=dict(no_native=True)))
+    for d in DEPTHS:
+        us.append(Unit("geom_center_d%02d" % d, P + "geom_center_d%02d" % d, ["Layer::center_of_projected_cell", "Layer::decode_hash", "rotate45_scale2", "Layer::shift_from_small_cell_center_to_base_cell_center", "Layer::scale_to_proj_dividing_by_nside", "compute_base_cell_center_offsets_in_8x3_grid", "apply_base_cell_center_offsets", "Layer::check_hash"],
+                       "depth %d, all cells: projected centre == integer geometry exactly; x in [0,8), y in [-2,2]" % d, timeout=900, level="B", bound="depth %d" % d))
+        us.append(Unit("geom_panic_d%02d" % d, P + "geom_panic_d%02d" % d, ["Layer::center_of_projected_cell", "Layer::check_hash"], "depth %d: cell number >= 12*4^d rejected by a panic" % d, kind="must_panic", allowed_fail=[r"Wrong hash value: too large"], tiers=both if d in (0, 3, 29) else th, timeout=600))
+        if d in (0, 3, 29):
+            us.append(Unit("geom_hdxdy_search_d%02d" % d, P + "geom_hdxdy_d%02d" % d, ["Layer::hash_with_dxdy", "Layer::shift_rotate_scale", "discretize", "Layer::depth0_bits", "Layer::build_hash", "(contract stub) proj"], "depth %d: hash_with_dxdy cell < 12*4^d, offsets in [0,1], point in the base cell of the returned cell; time-bounded refutation search" % d, kind="search", tiers=th, timeout=1200, extra=dict(no_native=True)))
     return us
